@@ -277,7 +277,22 @@ pub fn c07_case() -> BoxedStrategy<Case> {
         any::<u8>(),
         any::<u8>(),
     )
-        .prop_map(|(pool, calls, is_v9, sel, recs, where_call, where_atom)| {
+        .prop_map(|(pool, calls, is_v9, sel, recs, where_call, where_atom)| assemble(pool, calls, is_v9, sel, recs, where_call, where_atom))
+        .boxed()
+}
+
+/// build a C07 case from its ingredients (shared by the proptest strategy and the fuzz target)
+pub fn assemble(
+    pool: gen::Pool,
+    calls: Vec<Vec<gen::PktPlan>>,
+    is_v9: bool,
+    sel: u8,
+    recs: Vec<Vec<u8>>,
+    where_call: u8,
+    where_atom: u8,
+) -> Case {
+    {
+        {
             let proto = if is_v9 { Proto::V9 } else { Proto::Ipfix };
             let opts = BuildOpts { count_by_flowsets: true, withhold: Some((proto, sel)), ..BuildOpts::STRICT };
             let plan = gen::StreamPlan { pool: pool.clone(), calls };
@@ -321,8 +336,8 @@ pub fn c07_case() -> BoxedStrategy<Case> {
                 out.push(Call { parser: 0, packets: vec![dpk] });
             }
             Case { allowed: vec![crate::engine::DEFAULT_ALLOWED.to_vec(); 2], calls: out, params: Default::default() }
-        })
-        .boxed()
+        }
+    }
 }
 
 pub fn run(ctx: &Ctx) {
